@@ -299,7 +299,12 @@ class Enum:
                         nxt.append(p)
                         continue
                     if isinstance(s, dict) and s.get("k") == "let":
+                        init = thir.peel(s.get("i")) if isinstance(s.get("i"), dict) else None
+                        named = s["p"].get("k") == "bind" and "sub" not in s["p"] and isinstance(init, dict) and init.get("k") in ("if", "match", "block")
                         for q in self.paths(s.get("i")):
+                            if q.out == "val" and named and isinstance(q.val, str):
+                                # which alternative defined the variable on this path
+                                q = P(q.ev + (("let", s["p"]["n"], q.val),), "val", None)
                             if q.out != "val" or s.get("else") is None:
                                 nxt.append(p.then(q))
                             else:
@@ -314,12 +319,18 @@ class Enum:
                 if len(res) > self.max_paths:
                     raise Limit()
             out = []
+            tail = e.get("e")
+            tp = thir.peel(tail) if isinstance(tail, dict) else None
+            simple_tail = isinstance(tp, dict) and tp.get("k") in ("adt", "lit", "var", "upvar", "call", "field", "const", "tuple")
             for p in res:
                 if p.out != "val":
                     out.append(p)
                     continue
-                for q in self.paths(e.get("e")):
-                    out.append(p.then(q))
+                for q in self.paths(tail):
+                    r = p.then(q)
+                    if r.out == "val" and r.val is None and simple_tail:
+                        r = P(r.ev, "val", desc(tail))
+                    out.append(r)
             return out
         if k == "letx":
             res = []
